@@ -241,6 +241,15 @@ def prov_relative_attr(repo, tier="quick"):
             e = elem_of(ct[3][2]) if len(ct[3]) > 2 else None
             if e or (len(ct[3]) > 2 and ct[3][2][0] == "sub"):
                 ok_set = True
+    # ... or stored on the relabelled graph entry by entry: new_graph.nodes[key][attr] = translated
+    for n in cfg.nodes:
+        if n.kind == "stmt" and isinstance(n.ast, ast.Assign) and isinstance(n.ast.targets[0], ast.Subscript):
+            na = node_attr(fl.canon(n.ast.targets[0], n.id))
+            ek = elem_of(na[1]) if na else None
+            if na and na[0] == R and ek and ek[0] == "key":
+                src = is_call(strip_wrappers(ek[1]), "networkx.get_node_attributes")
+                if src and src[0] and src[0][0] == R and len(src[0]) > 1 and src[0][1] == na[2]:
+                    ok_set = True
     # the write-back is not suppressed for a non-empty translation table
     neg_guard = False
     for call, nid, _ in sets:
@@ -286,8 +295,10 @@ def prov_relative_attr(repo, tier="quick"):
             c = is_call(m[0], "networkx.get_node_attributes") if m else None
             if c and c[0] and c[0][0] == R:
                 stores = {x.id for x in cfg.nodes if x.kind == "stmt" and isinstance(x.ast, ast.Assign) and isinstance(x.ast.targets[0], ast.Subscript)
-                          and x.id in cfg.loops.get(n.id, set()) and elem_of(fl.canon(x.ast.targets[0].slice, x.id)) and
-                          elem_of(fl.canon(x.ast.targets[0].slice, x.id))[0] == "key"}
+                          and x.id in cfg.loops.get(n.id, set()) and
+                          ((elem_of(fl.canon(x.ast.targets[0].slice, x.id)) and elem_of(fl.canon(x.ast.targets[0].slice, x.id))[0] == "key") or
+                           (node_attr(fl.canon(x.ast.targets[0], x.id)) and elem_of(node_attr(fl.canon(x.ast.targets[0], x.id))[1]) and
+                            elem_of(node_attr(fl.canon(x.ast.targets[0], x.id))[1])[0] == "key"))}
                 starts = [d for d, lab in cfg.succ[n.id] if lab == "iter"]
                 skip = False
                 for s0 in starts:
@@ -1062,12 +1073,22 @@ def tt_relative_dispatch(repo, tier="quick"):
         if isinstance(sub, ast.Assign) and isinstance(sub.targets[0], ast.Subscript) and isinstance(sub.targets[0].value, ast.Name) \
                 and isinstance(sub.targets[0].slice, ast.Name) and sub.targets[0].slice.id == kname:
             store = sub.targets[0].value.id
+    graph_store = None
+    if store is None:
+        # ... or on the relabelled graph directly: new_graph.nodes[key][attr] = translated
+        for sub in ast.walk(loop.ast):
+            if isinstance(sub, ast.Assign) and isinstance(sub.targets[0], ast.Subscript) and isinstance(sub.targets[0].value, ast.Subscript) and \
+                    isinstance(sub.targets[0].value.slice, ast.Name) and sub.targets[0].value.slice.id == kname and \
+                    isinstance(sub.targets[0].value.value, ast.Attribute) and sub.targets[0].value.value.attr == "nodes" and \
+                    isinstance(sub.targets[0].value.value.value, ast.Name):
+                graph_store = sub.targets[0]
+                store = "<entry store>"
     need(store is not None, "the entry loop does not store the translated value under the entry's key", fi)
     # free local names of the loop body that are bound outside it (the declared depth flag): both truth values
     bound_outside = set()
     for sub in ast.walk(loop.ast):
         if isinstance(sub, ast.Name) and isinstance(sub.ctx, ast.Load) and sub.id in fl.locals and sub.id not in (mapname, store, kname, vname) and \
-                sub.id not in attr_names:
+                sub.id not in attr_names and not (graph_store is not None and any(sub is x for x in ast.walk(graph_store))):
             bound_outside.add(sub.id)
     assigned_inside = {t.id for sub in ast.walk(loop.ast) for t in ast.walk(sub) if isinstance(t, ast.Name) and isinstance(t.ctx, ast.Store)}
     flags = sorted(bound_outside)
@@ -1084,7 +1105,12 @@ def tt_relative_dispatch(repo, tier="quick"):
             env.update({a: "<relative attribute>" for a in attr_names})
         env.update(dict(zip(flags, combo)))
         from .truth import helper_inliner
-        ev = Evaluator(call_hook=helper_inliner(fi))
+        def store_hook(ev_, target, value, env_):
+            if graph_store is not None and target is graph_store:
+                env_[store][ev_.eval(target.value.slice, env_)] = value
+                return True
+            return False
+        ev = Evaluator(call_hook=helper_inliner(fi), store_hook=store_hook if graph_store is not None else None)
         n += 1
         try:
             try:
